@@ -75,6 +75,7 @@ def run(ctx, run):
     _cor_failure(ctx, run, P.need("vbi_dvb_mux_cor", MUX))
     _feed_callback(ctx, run, P.need("vbi_dvb_mux_feed", MUX))
     _raw_left_consistent(ctx, run, P.need("generate_pes_packet", MUX))
+    _frame_capacity(ctx, run)
     _header_lookahead(ctx, run)
     _rejection_traceless(ctx, run, P.need("vbi_dvb_mux_feed", MUX))
     _second_field_offset(ctx, run, P.need("samples_pointer", MUX))
@@ -475,6 +476,47 @@ def _max_read_offset(ctx, f, pname, depth=0):
                     if sub is not None:
                         best = max(best or 0, k0 + sub)
     return best
+
+
+def _frame_capacity(ctx, run):
+    """One frame holds at most one line per (field_parity, line_offset) address the data unit format can
+    express; the demultiplexer's own frame buffer has to take them all (plus nothing else: a full buffer is
+    what makes line_address() give up the frame).  The address width is read off lofp_to_line(): the mask
+    applied to the line_offset / field_parity byte and the field parity bit tested there."""
+    P = ctx.prog
+    f = P.need("lofp_to_line", DEMUX)
+    run.touch(f)
+    par = None
+    for p in f.params:
+        if "it" in p and not p.get("t", "").rstrip().endswith("*"):
+            par = p["name"]
+    lines, fields = None, 1
+    for n, e in enumerate(f.exprs):
+        if e["k"] == "bin" and e["op"] == "&":
+            a, b = ex.skip(f, e["c"][0]), ex.skip(f, e["c"][1])
+            if f.exprs[a]["k"] == "ref" and f.exprs[a].get("dk") == "param":
+                k = ex.const(f, b)
+                if k is None:
+                    continue
+                if k & (k + 1) == 0:
+                    lines = max(lines or 0, k + 1)
+                elif k & (k - 1) == 0:
+                    fields = 2
+    rec = P.record("_vbi_dvb_demux")
+    fl = P.field("_vbi_dvb_demux", "sliced")
+    if lines is None or fl is None or not fl.get("arr"):
+        raise AnalysisBroken("anchor vanished: line_offset mask in lofp_to_line or _vbi_dvb_demux.sliced[]")
+    cap = fl["arr"][0]
+    need = lines * fields
+    key = "RF-TAB:_vbi_dvb_demux.sliced:frame-capacity"
+    if cap >= need:
+        run.holds("RF-TAB", key, "dx->sliced[%d] takes the %d x %d lines a frame can address" % (cap, fields, lines),
+                  "%s:%d" % (f.file, f.line))
+    else:
+        run.violation("RF-TAB", key, "dx->sliced[] has %d elements but a frame can carry %d x %d = %d distinct line addresses "
+                      "(line_offset mask %d, field parity bit): line_address() gives up a conformant frame with more than %d "
+                      "lines as 'buffer full' and nothing of it is delivered" % (cap, fields, lines, need, lines - 1, cap),
+                      "%s:%d" % (f.file, f.line), witness={"capacity": cap, "addressable": need})
 
 
 def _header_lookahead(ctx, run):
